@@ -245,4 +245,57 @@ fn check(text: &[u8], model: &Model<'_>, probes: &[String], methods: &[String], 
             }
         }
     }
+    // The same lookups once more with every query string written into one reused buffer,
+    // strings of equal length one after the other: an answer must depend on the characters
+    // of the query, not on where they are stored or on what was asked before.
+    let mut order: Vec<&String> = probes.iter().collect();
+    order.sort_by_key(|s| s.len());
+    let mut qb = String::with_capacity(1024);
+    let mut mb = String::with_capacity(256);
+    for (i, c) in order.iter().enumerate() {
+        qb.clear();
+        qb.push_str(c);
+        let exp = model.class(c);
+        for which in 0..3 {
+            let who = ["mapper", "cache", "mapper+params"][which];
+            let g = match which {
+                0 => m.class(&qb),
+                1 => cache.class(&qb),
+                _ => mp.class(&qb),
+            };
+            rep.count("evaluations", 1);
+            rep.count("lookups_from_a_reused_query_buffer", 1);
+            if g != exp {
+                let mut d = mapping_detail(text, "");
+                d.set("implementation", Json::s(who));
+                d.set("class", Json::s((*c).clone()));
+                d.set("previous_query_in_the_same_buffer", Json::s(if i > 0 { order[i - 1].as_str() } else { "" }));
+                d.set("expected", Json::s(format!("{exp:?}")));
+                d.set("actual", Json::s(format!("{g:?}")));
+                rep.violation(case_idx, "model-class", &format!("remap_class impl={who}: answer depends on the storage of the query string (reused buffer)"), d);
+            }
+            if exp.is_some() {
+                for me in methods.iter().take(6) {
+                    mb.clear();
+                    mb.push_str(me);
+                    let mexp = model.method(c, me);
+                    let g = match which {
+                        0 => m.method(&qb, &mb),
+                        1 => cache.method(&qb, &mb),
+                        _ => mp.method(&qb, &mb),
+                    };
+                    rep.count("evaluations", 1);
+                    rep.count("lookups_from_a_reused_query_buffer", 1);
+                    if g != mexp {
+                        let mut d = mapping_detail(text, "");
+                        d.set("implementation", Json::s(who));
+                        d.set("query", query_json(c, me, 0, None, None));
+                        d.set("expected", Json::s(format!("{mexp:?}")));
+                        d.set("actual", Json::s(format!("{g:?}")));
+                        rep.violation(case_idx, "model-method", &format!("remap_method impl={who}: answer depends on the storage of the query string (reused buffer)"), d);
+                    }
+                }
+            }
+        }
+    }
 }
